@@ -154,6 +154,39 @@ def r1_two_directions(run):
               rl.loc())
 
 
+def code_is_injective(run, rule):
+    """ident.code(): the value that is quoted is the field's own value, not a
+    transformation of it (lower-casing, stripping, truncating ... make two
+    different identifiers share one encoding).  Shared by C18.R2 and C19.R1."""
+    m = run.model
+    co = m.func("ident.code")
+    cfg = cfg_of(co, m)
+    n = 0
+    for nd, c in cfg.call_nodes("quote"):
+        if len(c.args) != 1:
+            continue
+        n += 1
+        a = c.args[0]
+        ok = isinstance(a, ast.Name)
+        bad = []
+        if ok:
+            for d in cfg.rd.reaching(a.id, nd.id):
+                v = d.value
+                if not (d.kind == "assign" and isinstance(v, ast.Call) and
+                        call_name(v) == "getattr" and len(v.args) >= 2 and
+                        unparse(v.args[0]) == co.params()[0]):
+                    bad.append(unparse(v) if v is not None else d.kind)
+        else:
+            bad.append(unparse(a))
+        run.check(ok and not bad, rule, co.qual + "::value-unchanged",
+                  "each field is encoded as it is (quote(getattr(item, field)))",
+                  "the value that is encoded may be %s: two different "
+                  "identifiers can get the same encoding (the map / cache key "
+                  "is no longer one-to-one) and decode(code(x)) differs from x"
+                  % bad, co.loc(c))
+    run.count(rule + ".quote() calls in code()", n)
+
+
 def r2_codec(run):
     run.rule("R2", "code/decode agree: same field table and indices, ',' and "
              "'=' separators, values quoted/unquoted, and no separator is in "
@@ -167,6 +200,7 @@ def r2_codec(run):
     run.check(fields == ["name_qualifier", "sp_name_qualifier", "format",
                          "sp_provided_id", "text"], "R2", "ident.ATTR",
               "the five NameID fields", "ATTR is %s" % fields, im.relpath)
+    code_is_injective(run, "R2")
     csrc = unparse(co.node)
     quotes = [c for c in calls_named(co.node, "quote")]
     safe_ok = all(not c.keywords and len(c.args) == 1 for c in quotes)
@@ -539,6 +573,61 @@ def r7_mapping_request_scope(run):
     run.floor("R7", "returns of a stored identifier", n, 1)
 
 
+def r8_find_nameid_all_criteria(run):
+    run.rule("R8", "find_nameid returns an identifier only if EVERY given "
+             "criterion matches it (the per-SP identifier lookup of the IdP "
+             "filters on SPNameQualifier and Format together)")
+    m = run.model
+    fi = m.func(ID + "find_nameid")
+    cfg = cfg_of(fi, m)
+    apps = [(nd, c) for nd, c in cfg.call_nodes("append")]
+    run.floor("R8", "result appends in find_nameid", len(apps), 1)
+    # per-criterion comparison `getattr(nid, key, None) != _val` (any spelling)
+    cmps = []
+    for n in cfg.nodes:
+        if n.kind not in ("true", "false"):
+            continue
+        for e, p in cfg.branch_atom_asts(n.id):
+            if isinstance(e, ast.Compare) and isinstance(e.ops[0], ast.Eq) and \
+                    any(isinstance(x, ast.Call) and call_name(x) == "getattr"
+                        for x in (e.left, e.comparators[0])):
+                cmps.append((n, p))
+    setops = [x for x in ast.walk(fi.node)
+              if (isinstance(x, ast.BinOp) and isinstance(x.op, (ast.BitAnd,
+                                                                  ast.BitOr)))
+              or (isinstance(x, ast.Call) and call_name(x) in
+                  ("intersection", "isdisjoint", "union"))]
+    key = fi.qual + "::every-criterion"
+    if not cmps:
+        if setops:
+            run.violated("R8", key, "criteria are compared as sets with %s: an "
+                         "identifier that matches ANY criterion is returned "
+                         "(another SP's identifier of the same format)" %
+                         [unparse(x)[:40] for x in setops], fi.loc())
+        else:
+            run.undecided("R8", key, "no per-criterion comparison found in "
+                          "find_nameid", fi.loc())
+        return
+    mism = [n.id for n, p in cmps if p is False]    # branch taken on mismatch
+    outer = [l.id for l in cfg.by_kind("for")]
+    exc = {n.id for n in cfg.nodes if n.kind == "exc"}
+    wit = None
+    for s in mism:
+        for nd, c in apps:
+            # within the same candidate: do not go round the outer loop
+            heads = [h for h in outer
+                     if not any(cfg.dominates(h, s) and
+                                cfg.nodes[h].ast is l.ast
+                                for l in cfg.by_kind("foriter")
+                                if "kwargs" in unparse(l.ast.iter))]
+            wit = wit or cfg.path(s, nd.id, set(heads) | exc)
+    run.check(bool(mism) and wit is None, "R8", key,
+              "a criterion that does not match excludes the candidate",
+              "after a criterion that does not match, the candidate can still "
+              "be appended to the result", fi.loc(),
+              witness=cfg.describe_path(wit) if wit else None)
+
+
 def check(run):
     run.explanation = (
         "C18: ownership of the identifier map (who writes it) and the pairing "
@@ -556,3 +645,4 @@ def check(run):
     r5_manage_name_id(run)
     r6_no_undefined_names(run)
     r7_mapping_request_scope(run)
+    r8_find_nameid_all_criteria(run)
